@@ -16,7 +16,8 @@ import KavaVerif.Generated.C17Router
       verdict ∈ yes|no|panic (real allowsParamChange); handler ∈ ok|err|panic|skip; after = raw value
       after the real params handler ran on the accepted document (`-` otherwise)
   c17.has  perms changesOrKind store => verdict
-  c17.life committees proposals votes nextId ext op => class proposals' votes' nextId' ext' events
+  c17.life committees proposals votes nextId ext op => class proposals' votes' nextId' ext' events cast
+      cast = the votes the harness itself cast last (pid:voter:type;…), kept outside the store, at pre-state time
 -/
 namespace Drv.C17
 open KV KV.Perm KV.Com
@@ -430,7 +431,7 @@ def tallyPasses (com : Committee LP) (votes : List Vote) (ext : LExt) (pid : Nat
   else
     decide ((com.threshold.mul (Dec.ofInt com.members.length)).m ≤ (vs.length : Int) * P)
 
-def lifePred (pre : LSt) (op : List String) (cls : String) (props' : List (Proposal LC)) (votes' : List Vote)
+def lifePred (pre : LSt) (cast : List Vote) (op : List String) (cls : String) (props' : List (Proposal LC)) (votes' : List Vote)
     (ext' : LExt) (events : List (Nat × String)) : String :=
   match op with
   | "submit" :: _ | "vote" :: _ =>
@@ -439,13 +440,21 @@ def lifePred (pre : LSt) (op : List String) (cls : String) (props' : List (Propo
     else if !events.isEmpty then predfail "C17_submit_vote_no_effect" "proposal-closed-by-message"
     else
       match op with
-      | ["vote", now, pid, _, _] =>
-        match int? now, nat? pid with
-        | some now, some pid =>
+      | ["vote", now, pid, voter, vt] =>
+        match int? now, nat? pid, nat? voter, parseVT vt with
+        | some now, some pid, some voter, some vt =>
           match pre.proposals.find? (fun p => p.id == pid) with
-          | some p => if now ≥ p.deadline then predfail "C17_timing" "vote-at-or-after-deadline-accepted" else "ok"
+          | some p =>
+            if now ≥ p.deadline then predfail "C17_timing" "vote-at-or-after-deadline-accepted"
+            else
+              -- C17_revote_replaces on the store: exactly the option just cast is recorded for (proposal, voter)
+              match votes'.filter (fun v => v.pid == pid && v.voter == voter) with
+              | [v] => if v.vt == vt then "ok"
+                       else predfail "C17_vote_recorded" s!"stale-vote pid={pid} voter={voter} cast={showVT vt} stored={showVT v.vt}"
+              | [] => predfail "C17_vote_recorded" s!"vote-not-stored pid={pid} voter={voter}"
+              | _ => predfail "C17_vote_recorded" s!"several-votes-stored pid={pid} voter={voter}"
           | none => predfail "C17_timing" "vote-on-unknown-proposal-accepted"
-        | _, _ => badInput "vote-op"
+        | _, _, _, _ => badInput "vote-op"
       | _ => "ok"
   | ["begin", now] =>
     match int? now with
@@ -483,6 +492,19 @@ def lifePred (pre : LSt) (op : List String) (cls : String) (props' : List (Propo
             match badE with
             | some (pid, _) => predfail "C17_enact_only_if_passed" s!"tally-not-passing pid={pid}"
             | none =>
+            -- the same from the votes the harness itself cast last (its own log, not the vote store):
+            -- enacted ⇒ passes, closed as failed at the deadline ⇒ does not pass
+            let badC := events.find? fun (pid, o) =>
+              match pre.proposals.find? (fun p => p.id == pid) with
+              | none => false
+              | some p => match pre.committees.find? (fun c => c.id == p.cid) with
+                | none => false
+                | some com =>
+                  let passes := tallyPasses com cast pre.ext pid
+                  (o == "Passed" && !passes) || (o == "Invalid" && !passes) || (o == "Failed" && passes)
+            match badC with
+            | some (pid, o) => predfail "C17_enact_only_if_passed" s!"tally-from-cast-votes closed-{o} pid={pid}"
+            | none =>
               -- nothing changes outside the store unless something was enacted
               if !(events.any (fun e => e.2 == "Passed")) && ext' != pre.ext then
                 predfail "C17_enact_only_if_passed" "external-state-changed-without-enactment"
@@ -505,18 +527,18 @@ def runOp (s : LSt) (op : List String) : Option (Res LSt) :=
   | _ => none
 
 def handleLife : Handler
-  | [comsS, propsS, votesS, nextS, extS, opS, _, cls, propsS', votesS', nextS', extS', eventsS] =>
+  | [comsS, propsS, votesS, nextS, extS, opS, _, cls, propsS', votesS', nextS', extS', eventsS, castS] =>
     match (lst comsS ";").mapM parseCom, (strs propsS ";").mapM parseProp, (strs votesS ";").mapM parseVote,
           nat? nextS, parseExt extS, (strs propsS' ";").mapM parseProp, (strs votesS' ";").mapM parseVote,
-          nat? nextS', parseExt extS', parseEvents (if eventsS == "-" then "" else eventsS) with
-    | some coms, some props, some votes, some next, some ext, some props', some votes', some next', some ext', some events =>
+          nat? nextS', parseExt extS', parseEvents (if eventsS == "-" then "" else eventsS), (strs castS ";").mapM parseVote with
+    | some coms, some props, some votes, some next, some ext, some props', some votes', some next', some ext', some events, some cast =>
       let s : LSt := { committees := coms, proposals := props, votes := votes, nextId := next, ext := ext, log := [] }
       let op := opS.splitOn " "
       match runOp s op with
       | none => badInput "op"
       | some res =>
         let mcls := match res with | .ok _ => "ok" | .err => "err" | .panic => "panic"
-        let pr0 := lifePred s op cls props' votes' ext' events
+        let pr0 := lifePred s cast op cls props' votes' ext' events
         if pr0 != "ok" then pr0
         else if mcls != cls then mismatch "class" mcls cls
         else
@@ -535,9 +557,9 @@ def handleLife : Handler
                 expectEq "proposals-after-refusal" (showList (props.map showProp) ";") (showList (props'.map showProp) ";"),
                 expectEq "votes-after-refusal" (showList ((sortVotes votes).map showVote) ";") (showList ((sortVotes votes').map showVote) ";"),
                 expectEq "ext-after-refusal" (showExt ext) (showExt ext')]
-          let pr := lifePred s op cls props' votes' ext' events
+          let pr := lifePred s cast op cls props' votes' ext' events
           if pr != "ok" then pr else cmp
-    | _, _, _, _, _, _, _, _, _, _ => badInput "parse"
+    | _, _, _, _, _, _, _, _, _, _, _ => badInput "parse"
   | _ => badInput "arity"
 
 /-- handlers of property C17: (command name, handler) -/
